@@ -101,6 +101,16 @@ func loadKnown(verifDir string) ([]KnownFinding, error) {
 }
 
 // Finish prints diagnostics, writes evidence and returns the exit status.
+// Assume records a modelling assumption (once) in the evidence.
+func (r *Run) Assume(a string) {
+	for _, x := range r.assume {
+		if x == a {
+			return
+		}
+	}
+	r.assume = append(r.assume, a)
+}
+
 func (r *Run) Finish(verifDir string, cmd string) int {
 	known, err := loadKnown(verifDir)
 	if err != nil {
